@@ -192,7 +192,7 @@ theorem rel_new (db : DB) (hdb : Sorted db) (kgc start stop maxCache : Nat) (ids
     (hss : start ≤ stop) (hstop : stop ≤ 65536)
     (hwf : ∀ k ∈ (Store.new db kgc start stop maxCache).timerKeys, WF kgc k) :
     Rel (Registry.new (Store.new db kgc start stop maxCache) ids)
-      ⟨((Store.new db kgc start stop maxCache).timerKeys.map timerOf), Wm.Ups.init ids, Wm.zeroTime⟩ := by
+      ⟨((Store.new db kgc start stop maxCache).timerKeys.map timerOf), Wm.Ups.init ids, Wm.regInit⟩ := by
   have hinv := sinv_new db hdb kgc start stop maxCache hss hstop
   -- the key list has no duplicates: it is a sublist of... each key is in the DB once and owned by one partition
   refine ⟨hinv, rfl, rfl, hwf, ?_, ?_⟩
